@@ -594,8 +594,6 @@ def run_proxy(case):
         o['res'] = 'object'
       else:
         o['res'] = 'own'
-    if hasattr(type(p), name) != (o['res'] in ('call', 'base', 'own', 'object')) and o['res'] != 'field':
-      o['res'] = 'inconsistent'
     if o['res'] == 'call':
       value, err = _Val(('value', oi)), _Err('e%d' % oi)
       args = tuple(pool[i] for i in op['args'])
